@@ -30,7 +30,8 @@ Plain == Opt(FALSE, FALSE, FALSE, FALSE, FALSE, FALSE, FALSE)
 OptSets == { Plain, [Plain EXCEPT !.ci = TRUE], [Plain EXCEPT !.smart = TRUE], [Plain EXCEPT !.word = TRUE],
              [Plain EXCEPT !.line = TRUE], [Plain EXCEPT !.inv = TRUE], [Plain EXCEPT !.crlf = TRUE],
              [Plain EXCEPT !.word = TRUE, !.ci = TRUE], [Plain EXCEPT !.line = TRUE, !.inv = TRUE],
-             [Plain EXCEPT !.crlf = TRUE, !.line = TRUE], [Plain EXCEPT !.smart = TRUE, !.word = TRUE] }
+             [Plain EXCEPT !.crlf = TRUE, !.line = TRUE], [Plain EXCEPT !.smart = TRUE, !.word = TRUE],
+             [Plain EXCEPT !.nul = TRUE], [Plain EXCEPT !.nul = TRUE, !.inv = TRUE] }
 
 Fams == {"l1", "cat", "alt", "grp", "fixed", "two"}
 \* C11: matcher-level option sets (inversion is not a matcher option) and extra families
@@ -41,7 +42,8 @@ C11Seeds == {[o |-> o, fam |-> f, pats |-> <<>>, fixed |-> FALSE] : o \in Matche
 C11SeedsQuick == {s \in C11Seeds : s.fam \in {"l1", "alt", "grp", "lf", "inner", "two"}}
 WPlus == URep(UWCls(FALSE), 1, Inf, TRUE)
 QuickOptSets == { Plain, [Plain EXCEPT !.ci = TRUE], [Plain EXCEPT !.crlf = TRUE], [Plain EXCEPT !.word = TRUE],
-                  [Plain EXCEPT !.line = TRUE, !.inv = TRUE], [Plain EXCEPT !.smart = TRUE, !.word = TRUE] }
+                  [Plain EXCEPT !.line = TRUE, !.inv = TRUE], [Plain EXCEPT !.smart = TRUE, !.word = TRUE],
+                  [Plain EXCEPT !.nul = TRUE] }
 MCSeeds == {[o |-> o, fam |-> f, pats |-> <<>>, fixed |-> FALSE] : o \in OptSets, f \in Fams}
 MCSeedsQuick == {[o |-> o, fam |-> f, pats |-> <<>>, fixed |-> FALSE] : o \in QuickOptSets, f \in (Fams \ {"cat"}) \cup {"catq", "innerq"}}
 Sc(ps, o, fx) == [pats |-> ps, o |-> o, fixed |-> fx, fam |-> "", sel |-> <<>>]
@@ -66,5 +68,6 @@ MCPatternsOf(sd) ==
                                y \in {URep(ULit(SA), 12, 12, TRUE), URep(ULit(SA), 0, 2, TRUE), URep(ULit(SA), 2, 2, TRUE), URep(ULit(SA), 1, 3, TRUE)}}
     [] sd.fam = "two" -> {[sd EXCEPT !.pats = <<x, y>>] : x \in Leaves, y \in {ULit(SUA), ULit(SB), UCat(ULit(SA), ULit(SB))}}
 MCWordSyms == {1, 2, 3, 4, 5, 6, 10, 11}
+NulSeeds == {[o |-> [Plain EXCEPT !.nul = TRUE], fam |-> f, pats |-> <<>>, fixed |-> FALSE] : f \in {"l1", "alt"}}
 TinySeeds == {[o |-> Plain, fam |-> "fixed", pats |-> <<>>, fixed |-> FALSE]}
 =============================================================================
